@@ -626,6 +626,7 @@ class _Universe(frozenset):
 
 UNIVERSE = _Universe()
 INFEASIBLE = object()
+CURRENT = None          # the Facts instance whose edge_gen callback is running (its edge_state is the state before the edge)
 
 
 class Facts:
@@ -719,6 +720,8 @@ class Facts:
                                     return INFEASIBLE
                     if self.edge_gen:
                         self.edge_state = s
+                        global CURRENT
+                        CURRENT = self
                         atoms = list(atoms) + list(self.edge_gen(node, label, atoms) or ())
                     return s | frozenset(atoms)
         elif node.kind == "br" and isinstance(label, tuple) and label[0] == "case":
